@@ -340,10 +340,20 @@ func (l *Lexer) advanceChar() (rune, bool) {
 	return char, true
 }
 
+// Same as [advanceChar] but keeps the line counter in sync
+// when the consumed character is a line break.
+func (l *Lexer) advanceCharCountingLines() (rune, bool) {
+	char, ok := l.advanceChar()
+	if ok && char == '\n' {
+		l.incrementLine()
+	}
+	return char, ok
+}
+
 // Advance the next `n` characters
 func (l *Lexer) advanceChars(n int) bool {
 	for i := 0; i < n; i++ {
-		_, ok := l.advanceChar()
+		_, ok := l.advanceCharCountingLines()
 		if !ok {
 			return false
 		}
@@ -979,7 +989,7 @@ func (l *Lexer) character() *token.Token {
 			return l.lexError("invalid escape sequence in a character literal")
 		}
 	} else {
-		ch, ok := l.advanceChar()
+		ch, ok := l.advanceCharCountingLines()
 		if !ok {
 			return l.lexError(unterminatedCharLiteralMessage)
 		}
@@ -1001,7 +1011,7 @@ func (l *Lexer) character() *token.Token {
 func (l *Lexer) rawCharacter() *token.Token {
 	var char string
 
-	ch, ok := l.advanceChar()
+	ch, ok := l.advanceCharCountingLines()
 	if !ok {
 		return l.lexError(unterminatedCharLiteralMessage)
 	}
@@ -1090,7 +1100,7 @@ func (l *Lexer) numberLiteral(startDigit rune) *token.Token {
 	switch l.peekChar() {
 	case 'i':
 		l.advanceChar()
-		switch ch, _ := l.advanceChar(); ch {
+		switch ch, _ := l.advanceCharCountingLines(); ch {
 		case '6':
 			if l.matchChar('4') {
 				return l.tokenWithValue(token.INT64, lexeme.String())
@@ -1113,7 +1123,7 @@ func (l *Lexer) numberLiteral(startDigit rune) *token.Token {
 			return l.tokenWithValue(token.UINT, lexeme.String())
 		}
 
-		switch ch, _ := l.advanceChar(); ch {
+		switch ch, _ := l.advanceCharCountingLines(); ch {
 		case '6':
 			if l.matchChar('4') {
 				return l.tokenWithValue(token.UINT64, lexeme.String())
@@ -1153,7 +1163,7 @@ func (l *Lexer) numberLiteral(startDigit rune) *token.Token {
 	}
 
 	if l.matchChar('f') {
-		switch ch, _ := l.advanceChar(); ch {
+		switch ch, _ := l.advanceCharCountingLines(); ch {
 		case '6':
 			if l.matchChar('4') {
 				return l.tokenWithValue(token.FLOAT64, lexeme.String())
@@ -1936,7 +1946,7 @@ func (l *Lexer) scanNormal(afterMethodCallOperator bool) *token.Token {
 					l.consumeDigits(decimalLiteralChars, &lexeme)
 				}
 				if l.matchChar('f') {
-					switch ch, _ := l.advanceChar(); ch {
+					switch ch, _ := l.advanceCharCountingLines(); ch {
 					case '6':
 						if l.matchChar('4') {
 							return l.tokenWithValue(token.FLOAT64, lexeme.String())
@@ -2346,7 +2356,7 @@ func (l *Lexer) scanNormal(afterMethodCallOperator bool) *token.Token {
 		case '"':
 			if l.mode() == stringInterpolationMode {
 				for {
-					_, ok := l.advanceChar()
+					_, ok := l.advanceCharCountingLines()
 					if !ok {
 						return l.lexError(unterminatedStringError)
 					}
